@@ -126,6 +126,10 @@ func c01Check(c *Ctx, mc memClient, cs c01Case, script adapter.Script, caseNo in
 }
 
 func c01(c *Ctx) {
+	if c.Mode == "tz" {
+		c01Zone(c)
+		return
+	}
 	c.Res.Rule = "random interleaved call histories over all 32 operations on two clients per goroutine (two goroutines), plus per-field sweeps; every request recorded at the driver hook is compared byte-for-byte (all 64 bytes) with the reference encoding; distinct = distinct request byte strings observed"
 	ops := []*rm.Op{}
 	for i := range rm.Ops {
@@ -414,4 +418,70 @@ func c01Shared(c *Ctx) {
 			}
 		}
 	}
+}
+
+// c01Zone: the operations that carry dates, in a process time zone with daylight saving: the date arguments are the days
+// around the zone's transitions - in particular days whose local midnight does not exist - and the request must carry exactly
+// those digits (the same reference encoding as everywhere; a date argument is a calendar day, whatever the zone does to it).
+func c01Zone(c *Ctx) {
+	zone := time.Local.String()
+	c.Res.Note("zone", zone)
+	r := c.Rng("tz/" + zone)
+	z := newZoneOracle(time.Local)
+	days := []rm.Val{}
+	for i := 1; i < len(z.periods); i++ {
+		T := z.periods[i].start
+		if T == farPast || T < civilUnix(1900, 1, 1, 0, 0, 0) || T > civilUnix(2200, 1, 1, 0, 0, 0) {
+			continue
+		}
+		for _, du := range []int64{-86400, 0, 3600, 86400} {
+			cv := civilOf(T+du, time.Local)
+			if cv.y >= 1 && z.dayHasInstant(cv.y, cv.m, cv.d) {
+				days = append(days, rm.DateVal(cv.y, cv.m, cv.d))
+			}
+		}
+		before, after := z.periods[i-1].off, z.periods[i].off
+		if after > before {
+			if day := ((T + after) / 86400) * 86400; day >= T+before && day < T+after {
+				cv := civilOf(day, time.UTC)
+				if z.dayHasInstant(cv.y, cv.m, cv.d) {
+					days = append(days, rm.DateVal(cv.y, cv.m, cv.d), rm.DateVal(cv.y, cv.m, cv.d)) // midnight in the gap: twice as likely
+					c.Res.Count("zone:days-with-skipped-midnight", 1)
+				}
+			}
+		}
+	}
+	if len(days) == 0 {
+		days = append(days, rm.DateVal(2024, 3, 31))
+	}
+	clients := c01Clients(r, []uint32{r.Serial(), r.Serial()})
+	ops := []*rm.Op{}
+	for _, op := range reqOps() {
+		for _, f := range op.ArgFields() {
+			if f.Kind == rm.Date {
+				ops = append(ops, op)
+				break
+			}
+		}
+	}
+	N := c.N(3000, 40000)
+	for i := 0; i < N; i++ {
+		op := ops[r.Pick(len(ops))]
+		a, p := r.Args(op)
+		for _, f := range op.ArgFields() {
+			if f.Kind == rm.Date && r.Chance(0.8) {
+				a[f.Name] = days[r.Pick(len(days))]
+			}
+		}
+		if op.Name == "SetTimeProfile" || op.Name == "AddTask" || op.Name == "PutCard" {
+			// keep From <= To where the operation insists on it: order the pair
+			if f, t := a["From"], a["To"]; f.K == rm.Date && t.K == rm.Date && (f.Y > t.Y || (f.Y == t.Y && (f.Mo > t.Mo || (f.Mo == t.Mo && f.D > t.D)))) {
+				a["From"], a["To"] = t, f
+			}
+		}
+		serial := r.Serial()
+		reply := okReply(op, serial)
+		c01Check(c, clients[r.Pick(2)], c01Case{op, serial, a, p}, func(adapter.Invocation) ([][]byte, error) { return [][]byte{reply}, nil }, int64(20_000_000+i), "zone/"+zone)
+	}
+	c.Res.Count("zone:transition-days", int64(len(days)))
 }
